@@ -190,6 +190,53 @@ pub fn gen_paragraphs(src: &mut Src, _i: usize) -> Case {
     case
 }
 
+/// a scroll region (optionally with origin mode) is in force while the width changes: a
+/// width-only resize keeps the region, and the re-wrap moves the cursor's line across
+/// the margins (scrollback rows come back into view when wrapped text gets shorter)
+pub fn gen_regions(src: &mut Src, _i: usize) -> Case {
+    let cols = src.range(3, 12);
+    let rows = src.range(3, 8);
+    let mut s = String::new();
+    let np = src.range(2, 7);
+    for p in 0..np {
+        let len = src.range(1, cols * 4);
+        for k in 0..len {
+            s.push((b'a' + ((p * 5 + k) % 26) as u8) as char);
+        }
+        s.push_str("\r\n");
+    }
+    let t = src.range(1, rows - 1);
+    let b = src.range(t + 1, rows);
+    s.push_str(&format!("\x1b[{};{}r", t, b));
+    if src.chance(2, 3) {
+        s.push_str("\x1b[?6h");
+    }
+    match src.below(4) {
+        0 => s.push_str(&format!("\x1b[{};{}H", src.range(1, rows), src.range(1, cols))),
+        1 => s.push_str(&format!("\x1b[{}B\x1b[{}G", src.range(1, rows), src.range(1, cols))),
+        2 => s.push_str(&format!("\x1b[{}d", rows)),
+        _ => {}
+    }
+    if src.chance(1, 3) {
+        for k in 0..src.range(1, cols * 2) {
+            s.push((b'A' + (k % 26) as u8) as char);
+        }
+    }
+    let mut case = Case::new(cols, rows, None).feed(s);
+    let n = src.range(1, 3);
+    for _ in 0..n {
+        let c = match src.below(4) {
+            0 => src.range(1, 3),
+            1 => cols * src.range(2, 4),
+            2 => cols + 1,
+            _ => src.range(1, 30),
+        };
+        let r = if src.chance(3, 4) { rows } else { src.range(1, 9) };
+        case.calls.push(Call::Resize(c, r));
+    }
+    case
+}
+
 /// magnitudes: logical lines of hundreds to thousands of characters, hundreds of lines of
 /// scrollback, widths beyond 255, chains of many resizes
 pub fn gen_large(src: &mut Src, _i: usize) -> Case {
@@ -258,6 +305,7 @@ pub fn run(env: &Env) -> PropRun {
     let ep = enum_all_pairs();
     parts.push(run_part(env, "enum-all-size-pairs", ep.len(), true, "5 contents x every (cols 1-5, rows 1-4) -> (cols 1-6, rows 1-4)", &|i| ep.get(i).cloned(), &j));
     parts.push(random_part(env, "paragraphs", env.tier.scale(80_000, 40), &gen_paragraphs, &j));
+    parts.push(random_part(env, "regions-and-origin", env.tier.scale(40_000, 40), &gen_regions, &j));
     parts.push(random_part(env, "large-and-long", env.tier.scale(600, 30), &gen_large, &j));
     parts.push(random_part(env, "random-histories", env.tier.scale(120_000, 40), &gen_random, &j));
     PropRun {
